@@ -607,6 +607,7 @@ func (vc *VC) execSwitch(fr *frame, st *State, x *ast.SwitchStmt, label string) 
 	fr.breaks = append(fr.breaks, bc)
 	defer func() { fr.breaks = fr.breaks[:len(fr.breaks)-1] }()
 	var outs []*State
+	var fallIn *State
 	notPrev := True
 	var deflt *ast.CaseClause
 	cur := st
@@ -631,20 +632,41 @@ func (vc *VC) execSwitch(fr *frame, st *State, x *ast.SwitchStmt, label string) 
 		cond := Or(conds...)
 		s1 := cur.clone()
 		s1.pc = vc.newPC(cur, And(notPrev, cond))
-		for _, bs := range cc.Body {
-			if b, ok := bs.(*ast.BranchStmt); ok && b.Tok == token.FALLTHROUGH {
-				vc.errorf(b.Pos(), "fallthrough is outside the supported subset")
+		// a preceding clause that ended in `fallthrough` continues here
+		if fallIn != nil {
+			s1 = vc.merge(s1, fallIn)
+			fallIn = nil
+		}
+		body := cc.Body
+		falls := false
+		if n := len(body); n > 0 {
+			if b, ok := body[n-1].(*ast.BranchStmt); ok && b.Tok == token.FALLTHROUGH {
+				falls = true
+				body = body[:n-1]
 			}
 		}
-		outs = append(outs, vc.execBlock(fr, s1, cc.Body))
+		res := vc.execBlock(fr, s1, body)
+		if falls {
+			fallIn = res
+		} else {
+			outs = append(outs, res)
+		}
 		notPrev = And(notPrev, Not(cond))
 	}
 	sd := cur.clone()
 	sd.pc = vc.newPC(cur, notPrev)
 	if deflt != nil {
+		if fallIn != nil {
+			// fallthrough into a trailing default clause
+			sd = vc.merge(sd, fallIn)
+			fallIn = nil
+		}
 		outs = append(outs, vc.execBlock(fr, sd, deflt.Body))
 	} else {
 		outs = append(outs, sd)
+	}
+	if fallIn != nil {
+		outs = append(outs, fallIn)
 	}
 	outs = append(outs, bc.states...)
 	return vc.merge(outs...)
